@@ -117,7 +117,17 @@ class RateLimitedEntity(Entity):
         self.received_times.append(now)
 
         if self._policy.try_acquire(now):
-            return self._forward(event, now)
+            if self._queue.is_empty():
+                return self._forward(event, now)
+            # Requests already waiting go first (arrival order): the admission
+            # goes to the head of the queue and the new arrival takes its place.
+            head = self._queue.pop()
+            if head is not None and self._queue.push(event):
+                self._queued += 1
+                result = self._forward(head, now)
+                result.extend(self._ensure_poll_scheduled(now))
+                return result
+            raise RuntimeError("Queue reported non-empty but could not swap its head")
 
         # Queue the event
         if self._queue.push(event):
